@@ -123,7 +123,7 @@ def nothing_can_fail(world):
     for feat, rule, ol, sc in W.walk_scenarios(world):
         wip_scen[sc["id"]] = "wip" in W.effective_tags(feat, rule, ol, sc)
         for _sid, st in W.all_steps_of(feat, rule, sc):
-            if "BAD" in st["text"] or "WORSE" in st["text"]:
+            if "BAD" in st["text"] or "WORSE" in st["text"] or "ASSERT" in st["text"]:
                 return False
             ok = False
             for d, r in rx:
